@@ -45,6 +45,7 @@ Print Assumptions C14_filter_exact.
 Theorem C14_entries_origin : forall d old cs,
   In d (spec_apply old cs) -> In d old \/ In (Add d) cs.
 Proof. exact spec_apply_origin. Qed.
+Print Assumptions C14_entries_origin.
 Theorem C14_equals_api : forall k art cfg, referrer_art k art cfg = api_art k art cfg.
 Proof. exact referrer_art_api. Qed.
 Print Assumptions C14_equals_api.
@@ -99,6 +100,7 @@ Print Assumptions C14_idxdel_after_effect.
 Theorem C14_arg_is_call : forall sg s t c s',
   step sg s (EGet t c) = Some s' -> arg s' t = c /\ pcs s' t = Got c.
 Proof. exact arg_set. Qed.
+Print Assumptions C14_arg_is_call.
 Theorem C14_arg_stable : forall sg s e s' t,
   step sg s e = Some s' -> pcs s t <> Idle -> arg s' t = arg s t.
 Proof. exact arg_stable. Qed.
@@ -127,9 +129,11 @@ Theorem C14_capability_monotone : forall b l,
   let r := set_cap CapUnknown b in
   fst r = cap_of b /\ snd r = false /\ Forall (fun x => fst x = cap_of b) (set_caps (fst r) l).
 Proof. exact capability_monotone. Qed.
+Print Assumptions C14_capability_monotone.
 Theorem C14_capability_error : forall s b,
   snd (set_cap s b) = true <-> s <> CapUnknown /\ s <> cap_of b.
 Proof. exact set_cap_error. Qed.
+Print Assumptions C14_capability_error.
 Print Assumptions C14_capability_monotone.
 
 (* several referrers tags (subjects): every component of a run of the product
